@@ -4,6 +4,15 @@
 
 request : hist <kind> <hid> <op>,<op>,...          kind: hd | hdl | hdp | single | ms
 answer  : one JSON line  {"steps": [{"op":..,"mops":[..],"err":..,"obs":{..}}, ...], "final": {...}}
+
+Accounts / networks: na = new_account(), nn = new_account(network='litecoin').  An operation may end in ":<A>", an
+index into the wallet's current list of (network, account) groups; the call then names that group
+(new_key(account_id=.., network=..), utxos_update(account_id=..[, networks=..]), send_to / sweep(.., account_id=..,
+network=..); the network is passed only when it is not the wallet's own).  Without the suffix the call names
+neither.  Every observation reads balance(account_id=a[, network=n]) and utxos(account_id=a[, network=n]) for EVERY
+group after the default readings (field "pa"), and the key balances / key groups again after these calls ("kbA",
+"ka").  Destinations: e = external address, o<i> = own key of the sending group, x<i> = own key of any account of
+the sending network.
 """
 import sys, os, json, logging, hashlib, random, gc
 sys.path.insert(0, os.path.dirname(os.path.abspath(__file__)))
@@ -14,16 +23,51 @@ from bitcoinlib.keys import HDKey
 from bitcoinlib.services.services import Service as RealService
 
 NW = 'bitcoinlib_test'
+NW2 = 'litecoin'           # second network of a wallet (another BIP44 coin type); its provider is the stub below
+MAX_ACCOUNTS = 3
+MAX_ACCOUNTS_NW2 = 2
 LOG = []
 
 
 class RecService(RealService):
-    """The real Service (bitcoinlib_test provider), recording what the provider answered."""
+    """The real Service for bitcoinlib_test (built-in offline provider), recording what the provider answered.
+    For any other network no provider can be reached: a deterministic stub answers the calls the wallet makes
+    (one confirmed output per address, a fixed fee rate, broadcast = transaction id)."""
+
+    def __init__(self, network=None, *args, **kwargs):
+        name = network if isinstance(network, str) or network is None else network.name
+        self._stub = name is not None and name != NW
+        if self._stub:
+            self.results, self.errors, self.complete, self.resultcount = {}, {}, True, 1
+        else:
+            RealService.__init__(self, network, *args, **kwargs)
 
     def getutxos(self, address, after_txid='', limit=20):
-        r = RealService.getutxos(self, address, after_txid, limit)
+        if self._stub:
+            r = []
+            if not after_txid:
+                r = [{'address': address, 'txid': hashlib.sha256(('c08-nw2-' + address).encode()).hexdigest(),
+                      'confirmations': 7, 'output_n': 1, 'index': 0, 'value': 30000000, 'script': ''}]
+        else:
+            r = RealService.getutxos(self, address, after_txid, limit)
         LOG.append((address, r))
         return r
+
+    def estimatefee(self, blocks=3, priority=''):
+        if self._stub:
+            return 20000
+        return RealService.estimatefee(self, blocks, priority)
+
+    def blockcount(self):
+        if self._stub:
+            return 100
+        return RealService.blockcount(self)
+
+    def sendrawtransaction(self, rawtx):
+        if self._stub:
+            from bitcoinlib.encoding import double_sha256, to_bytes
+            return {'txid': double_sha256(to_bytes(rawtx))[::-1].hex(), 'response_dict': {}}
+        return RealService.sendrawtransaction(self, rawtx)
 
 
 BW.Service = RecService
@@ -47,13 +91,72 @@ def keyrows(w):
     return [(k.id, k.address, k.account_id, k.depth, k.network_name, k.key_type) for k in w.keys()]
 
 
+def nwid(st, name):
+    """Integer network id used by the model: 0 is the wallet's own network."""
+    if name not in st.nws:
+        st.nws.append(name)
+    return st.nws.index(name)
+
+
+def groups(st):
+    """The (network name, account id) groups of the wallet: the wallet's own network first."""
+    w = st.w
+    nws = [NW] + [n for n in w.network_list() if n != NW] if w.scheme == 'bip32' and not w.multisig else [NW]
+    return [(nw, a) for nw in nws for a in sorted(w.accounts(network=nw) if nw != NW else w.accounts())]
+
+
+def pick_group(st, a, i):
+    """Group named by the optional suffix at position i of the token (None: the call names no account)."""
+    if len(a) <= i or a[i] == '':
+        return None
+    gl = groups(st)
+    return gl[int(a[i]) % len(gl)]
+
+
+def gkw(g):
+    """Keyword arguments naming the group: the network only when it is not the wallet's own."""
+    if g is None:
+        return {}
+    return {'account_id': g[1]} if g[0] == NW else {'account_id': g[1], 'network': g[0]}
+
+
+def filed_account(st, txid, nw):
+    """The account under which the wallet lists the transaction (Wallet.transaction(txid).account_id is the
+    wallet's default account whatever the row says, so the per-account lists are asked)."""
+    for g in groups(st):
+        if g[0] == nw and any(t.txid == txid for t in st.w.transactions(include_new=True, **gkw(g))):
+            return g[1]
+    return 0
+
+
+def u_ops(st, rescan, nets, acct, kid, first=None):
+    """The U operations of one utxos_update call: one per network of its loop, in loop order, carrying what the
+    provider answered for the addresses of that network (or the utxos handed over, for the first network)."""
+    ops = []
+    for j, nw in enumerate(nets):
+        us = []
+        if j == 0 and first is not None:
+            us = first
+        else:
+            for (addr, r) in LOG:
+                for u in r:
+                    kk = kid if kid is not None else st.addr[u['address']]
+                    if st.keys[kk][3] != nw:
+                        continue
+                    st.txids.add(u['txid'])
+                    us.append('%d/%s/%d/%d/%d' % (kk, u['txid'], u['output_n'], u['value'], u['confirmations']))
+        ops.append('U:%d:%d:%d:%s:%s' % (1 if rescan else 0, nwid(st, nw), acct, '-' if kid is None else str(kid),
+                                         ','.join(us) or '-'))
+    return ops
+
+
 def refresh_keys(st, mops):
     """New DbKey rows since the last look become K ops; keeps the address -> key id map."""
     for (kid, addr, acct, depth, nw, kt) in keyrows(st.w):
         if kid not in st.keys:
-            st.keys[kid] = (addr, acct, depth)
+            st.keys[kid] = (addr, acct, depth, nw)
             st.addr[addr] = kid
-            mops.append('K:%d:0:%d:%d' % (kid, acct, depth))
+            mops.append('K:%d:%d:%d:%d' % (kid, nwid(st, nw), acct, depth))
             if depth == st.w.key_depth and (kt != 'multisig' or True):
                 st.akeys.append(kid)
 
@@ -101,6 +204,22 @@ def kb_view(d):
     return ','.join('%d:%d' % (k, d[k]) for k in sorted(d))
 
 
+def observe_groups(st, w, o):
+    """Per-group readings, after the default ones: balance(account_id=a[, network=n]) and utxos(account_id=a[,
+    network=n]) for every (network, account) of the wallet, then the key balances and the group of every key."""
+    pa = []
+    for g in groups(st):
+        b = w.balance(**gkw(g))
+        ul = w.utxos(**gkw(g))
+        if b != int(b):
+            o['bal_exact'] = False
+        pa.append('%d.%d~%d~%s' % (nwid(st, g[0]), g[1], int(b), utxos_view(ul)))
+    o['pa'] = '+'.join(pa)
+    ks = w.keys()
+    o['kbA'] = kb_view({k.id: k.balance for k in ks})
+    o['ka'] = ','.join('%d:%d.%d' % (k.id, nwid(st, k.network_name), k.account_id) for k in sorted(ks, key=lambda k: k.id))
+
+
 def observe(st, full):
     o = {}
     w2 = open_wallet(st)
@@ -125,26 +244,32 @@ def observe(st, full):
         o['kb2'] = kb_view({k.id: k.balance for k in w3.keys()})
         o['txs2'] = txs_view(st, w3, True)
     del w3
+    observe_groups(st, w, o)
     return o
 
 
-def dest_addr(st, d):
+def dest_addr(st, d, g):
+    """e: external; o<i>: own key of the sending group g; x<i>: own key of any account of g's network."""
     if d == 'e':
-        return st.ext
-    return st.keys[st.akeys[int(d[1:]) % len(st.akeys)]][0]
+        return st.ext[g[0]]
+    pool = [k for k in st.akeys if st.keys[k][3] == g[0] and (d[0] == 'x' or st.keys[k][1] == g[1])]
+    if not pool:
+        return st.ext[g[0]]
+    return st.keys[pool[int(d[1:]) % len(pool)]][0]
 
 
-def created_ops(st, t, mops, minconf, check_sel=True):
-    if check_sel:
-        sel = ','.join('%s/%d' % (i.prev_txid.hex(), i.output_n_int) for i in t.inputs) or '-'
-        mops.append('C:0:%d:%d:%s' % (t.account_id, minconf, sel))
+def created_ops(st, t, mops, minconf, g):
+    """The inputs a created transaction selected must be spendable in the group the CALL named."""
+    sel = ','.join('%s/%d' % (i.prev_txid.hex(), i.output_n_int) for i in t.inputs) or '-'
+    mops.append('C:%d:%d:%d:%s' % (nwid(st, g[0]), g[1], minconf, sel))
 
 
 def store_op(st, t, sent, mops):
+    """The transaction row is filed where the library files it (t.account_id)."""
     ins, outs, raw = tx_tokens(st, t)
     st.txids.add(t.txid)
-    mops.append('T:%d:%s:0:%d:%d:%s:%s:%s' % (1 if sent else 0, t.txid, t.account_id, t.confirmations or 0,
-                                              ins, outs, raw))
+    mops.append('T:%d:%s:%d:%d:%d:%s:%s:%s' % (1 if sent else 0, t.txid, nwid(st, t.network.name), t.account_id,
+                                               t.confirmations or 0, ins, outs, raw))
 
 
 def do_op(st, tok):
@@ -155,57 +280,93 @@ def do_op(st, tok):
     err = None
     del LOG[:]
     try:
-        if k == 'nk':
-            w.new_key()
+        if k == 'na':
+            if len(w.accounts()) >= MAX_ACCOUNTS:
+                err = 'skip'
+            else:
+                w.new_account()
+        elif k == 'nn':
+            # an account on a second network (bip32 wallets with a coin-type level only)
+            if NW2 in w.network_list() and len(w.accounts(network=NW2)) >= MAX_ACCOUNTS_NW2:
+                err = 'skip'
+            else:
+                w.new_account(network=NW2)
+        elif k == 'nk':
+            w.new_key(**gkw(pick_group(st, a, 1)))
         elif k == 'gk':
-            w.get_key()
+            w.get_key(**gkw(pick_group(st, a, 1)))
         elif k in ('uu', 'un', 'uk'):
             kid = None
             if k == 'uk':
                 kid = st.akeys[int(a[1]) % len(st.akeys)]
+                acct, nets = st.keys[kid][1], [st.keys[kid][3]]      # utxos_update(key_id=..): the key's group
                 w.utxos_update(key_id=kid)
-            elif k == 'uu':
-                w.utxos_update()
             else:
-                w.utxos_update(rescan_all=False)
+                g = pick_group(st, a, 1)
+                kw = {} if g is None else {'account_id': g[1]}
+                nets = w.network_list()                  # the call loops over every network of the wallet ...
+                if g is not None and g[0] != NW:
+                    kw['networks'] = g[0]                # ... unless it names one
+                    nets = [g[0]]
+                if k == 'un':
+                    kw['rescan_all'] = False
+                w.utxos_update(**kw)
+                acct = 0 if g is None else g[1]          # _get_account_defaults('', None): account 0
             refresh_keys(st, mops)
-            us = []
-            for (addr, r) in LOG:
-                for u in r:
-                    kk = kid if kid is not None else st.addr[u['address']]
-                    st.txids.add(u['txid'])
-                    us.append('%d/%s/%d/%d/%d' % (kk, u['txid'], u['output_n'], u['value'], u['confirmations']))
-            mops.append('U:%d:0:0:%s:%s' % (1 if k == 'uu' else 0, '-' if kid is None else str(kid),
-                                            ','.join(us) or '-'))
-        elif k == 'ua':
+            mops += u_ops(st, k == 'uu', nets, acct, kid)
+        elif k in ('ua', 'uA'):
             kid = st.akeys[int(a[1]) % len(st.akeys)]
             value, txid, n, conf = int(a[2]), pool_txid(int(a[3])), int(a[4]), int(a[5])
-            w.utxo_add(st.keys[kid][0], value, txid, n, conf)
+            addr, kacct, knw = st.keys[kid][0], st.keys[kid][1], st.keys[kid][3]
+            home = kacct == 0 and knw == NW
+            if k == 'ua' and not home:
+                txid = pool_txid(1000 * nwid(st, knw) + 100 * kacct + int(a[3]))    # a transaction of that group only
+            first = ['%d/%s/%d/%d/%d' % (kid, txid, n, value, conf)]
             st.txids.add(txid)
-            mops.append('U:0:0:0:-:%d/%s/%d/%d/%d' % (kid, txid, n, value, conf))
+            if k == 'uA' or home:
+                # utxo_add has no account / network parameter: the library decides where the transaction row is
+                # filed, and its utxos_update loops over every network of the wallet
+                nets = w.network_list()
+                w.utxo_add(addr, value, txid, n, conf)
+                facct = 0 if home else filed_account(st, txid, knw)
+                mops += u_ops(st, False, nets, facct, None, first)
+            else:
+                # the documented way to hand over unspent outputs of another account / network
+                w.utxos_update(utxos=[{'address': addr, 'script': '', 'confirmations': conf, 'output_n': n,
+                                       'txid': txid, 'value': value}], account_id=kacct, networks=knw,
+                               rescan_all=False)
+                mops += u_ops(st, False, [knw], kacct, None, first)
         elif k in ('st', 'sw'):
             if k == 'st':
                 dest, permille, bc, mc = a[1], int(a[2]), a[3] == '1', int(a[4])
-                avail = sum(u['value'] for u in w.utxos(min_confirms=mc))
+                g = pick_group(st, a, 5)
+                kw = gkw(g)
+                if g is None:
+                    g = (NW, w.default_account_id)
+                avail = sum(u['value'] for u in w.utxos(min_confirms=mc, **kw))
                 amount = max(1000, avail * permille // 1000)
-                nk0 = len(st.keys)
                 try:
-                    t = w.send_to(dest_addr(st, dest), amount, broadcast=bc, min_confirms=mc, priv_keys=st.privs)
+                    t = w.send_to(dest_addr(st, dest, g), amount, broadcast=bc, min_confirms=mc,
+                                  priv_keys=st.privs, **kw)
                 finally:
                     refresh_keys(st, mops)
             else:
                 dest, bc, mc = a[1], a[2] == '1', int(a[3])
+                g = pick_group(st, a, 4)
+                kw = gkw(g)
+                if g is None:
+                    g = (NW, w.default_account_id)
                 try:
                     if st.privs:
-                        t = w.sweep(dest_addr(st, dest), broadcast=False, min_confirms=mc)
+                        t = w.sweep(dest_addr(st, dest, g), broadcast=False, min_confirms=mc, **kw)
                         t.sign(st.privs)
                         if bc:
                             t.send()
                     else:
-                        t = w.sweep(dest_addr(st, dest), broadcast=bc, min_confirms=mc)
+                        t = w.sweep(dest_addr(st, dest, g), broadcast=bc, min_confirms=mc, **kw)
                 finally:
                     refresh_keys(st, mops)
-            created_ops(st, t, mops, mc)
+            created_ops(st, t, mops, mc, g)
             st.created.append(t)
             if bc:
                 if t.pushed:
@@ -226,11 +387,15 @@ def do_op(st, tok):
                 else:
                     t.store()
                     store_op(st, t, False, mops)
-        elif k == 'im':
-            if not st.created:
+        elif k in ('im', 'iM'):
+            # transaction_import has no account parameter (the result belongs to the default account): 'im' takes
+            # a created transaction of the default account, 'iM' any
+            pool = [t for t in st.created if t.network.name == NW and
+                    (k == 'iM' or t.account_id == w.default_account_id)]
+            if not pool:
                 err = 'skip'
             else:
-                t = st.created[int(a[1]) % len(st.created)]
+                t = pool[int(a[1]) % len(pool)]
                 rt = w.transaction_import(t.to_transaction())
                 refresh_keys(st, mops)
                 st.created.append(rt)
@@ -266,7 +431,7 @@ def do_op(st, tok):
         err = 'WalletError ' + str(e)[:80]
     pre = []
     refresh_keys(st, pre)
-    return pre + mops if k in ('nk', 'gk') else mops + pre, err
+    return pre + mops if k in ('nk', 'gk', 'na', 'nn') else mops + pre, err
 
 
 def run_history(kind, hid, ops):
@@ -297,7 +462,8 @@ def run_history(kind, hid, ops):
                           witness_type=wt, db_uri=st.uri)
     st.w = w
     st.keys, st.addr, st.akeys, st.txids, st.created = {}, {}, [], set(), []
-    st.ext = HDKey.from_seed(b'\x07' * 32, network=NW, witness_type=wt).address()
+    st.nws = [w.network.name]
+    st.ext = {n: HDKey.from_seed(b'\x07' * 32, network=n, witness_type=wt).address() for n in (NW, NW2)}
     init = []
     refresh_keys(st, init)
     res = {'kind': kind, 'hid': hid, 'acct': w.default_account_id, 'bip32': w.scheme == 'bip32',
